@@ -352,6 +352,46 @@ def internal_contracts(l1):
         chk.soft("%s: returns receiver, operands not written" % label, r.outcome[1][0] == v and not any(w[0] == "w" and w[1] in (p.obj, q.obj) for w in r.log), [fname])
 
 
+def selector_contracts(l1):
+    """Zero / Select / CondNeg of the cached forms and projP2.Zero, from their SSA in ring mode (these are the
+    primitives the group-mode selector contracts T-sel are built on)"""
+    chk, prog, d = l1.chk, l1.prog, l1.d
+    one, zero = Poly.const(1), Poly()
+    for tname, n, ident in (("projCached", 4, [one, one, one, zero]), ("affineCached", 3, [one, one, zero]), ("projP2", 3, [zero, one, one])):
+        fname = prog.find(tname + ").Zero")
+        chk.used(prog, fname, "ring mode")
+        path = l1.path()
+        v = l1.junk_obj(path, tname, "R")
+        r = l1.call1(fname, [v], path)
+        out = l1.read(r, v, tname)
+        what = "(Y+X, Y-X, Z, 2dT) = (1,1,1,0)" if n == 4 else ("(y+x, y-x, 2dxy) = (1,1,0)" if tname == "affineCached" else "(X:Y:Z) = (0:1:1)")
+        chk.add(Ob("%s.Zero: the identity in this form: %s" % (tname, what), "unsat" if out == ident else "sat", 0, [fname], "ring mode"))
+    for tname, n in (("projCached", 4), ("affineCached", 3)):
+        A = [Poly.var("a%d" % i) for i in range(n)]
+        Bv = [Poly.var("b%d" % i) for i in range(n)]
+        fname = prog.find(tname + ").Select")
+        chk.used(prog, fname, "ring mode")
+        for cond, want in ((1, A), (0, Bv)):
+            path = l1.path()
+            a, b = l1.obj(path, tname, A), l1.obj(path, tname, Bv)
+            for v in (l1.junk_obj(path, tname, "R"), b):     # distinct receiver, and dest aliased to the second operand (as SelectInto does)
+                r = l1.call1(fname, [v, a, b, cond], path.clone())
+                out = l1.read(r, v, tname)
+                chk.add(Ob("%s.Select(cond=%d)%s: picks %s component-wise" % (tname, cond, " [v=b]" if v == b else "", "a" if cond else "b"), "unsat" if out == want else "sat", 0, [fname], "ring mode"))
+        fname = prog.find(tname + ").CondNeg")
+        chk.used(prog, fname, "ring mode")
+        for cond in (0, 1):
+            path = l1.path()
+            v = l1.obj(path, tname, A)
+            r = l1.call1(fname, [v, cond], path)
+            out = l1.read(r, v, tname)
+            if cond == 0:
+                want = A
+            else:
+                want = [A[1], A[0]] + ([A[2], -A[3]] if n == 4 else [-A[2]])
+            chk.add(Ob("%s.CondNeg(%d): %s" % (tname, cond, "unchanged" if cond == 0 else "swaps Y+X and Y-X and negates 2dT: the cached form of -Q"), "unsat" if out == want else "sat", 0, [fname], "ring mode"))
+
+
 def completeness(l1):
     """Bernstein-Lange: the denominators 1 +- d*x1*x2*y1*y2 never vanish for curve points when d is a
     non-square.  The two polynomial lemmas are validated by the solver; the Euler criterion is concrete;
